@@ -182,7 +182,7 @@ Proof.
   - intros s a l. apply only_1; destruct s; first [reflexivity|apply incl_refl].
   - intros t i. split; reflexivity.
   - intros t l. apply only_1; [reflexivity|apply incl_refl].
-  - intros t i. split; reflexivity.
+  - intros t i. unfold r_add_and_jump. destruct (addi_fits i); split; reflexivity.
   - intros o t a b. destruct o; split; reflexivity.
   - intros t s. split; reflexivity.
   - intros n t c. split; reflexivity.
